@@ -105,7 +105,7 @@ func genC04(t *rapid.T, tier string) (*World, any) {
 			word += `\~`
 		}
 		if chance(t, 8, "verbatim") {
-			word = "'" + pick(t, []string{"ab+c", "x[0-9]y", "p(?:q|r)s", "kk|mm", "ap(?:t)?|yu"}, "verb")
+			word = "'" + pick(t, []string{"ab+c", "x[0-9]y", "p(?:q|r)s", "kk|mm", "ap(?:t)?|yu", "'q[a-c]+'"}, "verb")
 		}
 		if seen[word] {
 			continue
@@ -258,7 +258,7 @@ func genC04(t *rapid.T, tier string) (*World, any) {
 
 var verbatimSamples = map[string][]string{
 	"ab+c": {"abc", "abbc"}, "x[0-9]y": {"x5y"}, "p(?:q|r)s": {"pqs", "prs"},
-	"kk|mm": {"kk", "mm"}, "ap(?:t)?|yu": {"ap", "apt", "yu"}, "a|b|c": {"a", "b", "c"},
+	"kk|mm": {"kk", "mm"}, "ap(?:t)?|yu": {"ap", "apt", "yu"}, "a|b|c": {"a", "b", "c"}, "'q[a-c]+'": {"'qa'", "'qabc'"},
 }
 
 // word model from the statement
